@@ -1175,10 +1175,16 @@ package p9
 //@   at io.LimitReader requires[C02] @drains-only-accepted-sizes 7 <= size && size <= msize && size <= maximumLength
 //@   at lookup requires[C02] @looks-up-only-accepted-sizes 7 <= size && size <= msize && size <= maximumLength
 //@   at lookup requires[C01,C02] @header-fields-little-endian size == uint32(hdr[0]) | uint32(hdr[1]) << 8 | uint32(hdr[2]) << 16 | uint32(hdr[3]) << 24 && arg1 == msgType(hdr[4]) && arg0 == tag(uint16(hdr[5]) | uint16(hdr[6]) << 8)
+// (the vector list has at most two entries: unfold its length sum; the pooled
+// fixed-part buffer and a message's own payload buffer are different arrays -
+// pool buffers are referenced by the pool only: presumed, listed)
+//@   at (Buffers).ReadFrom presume sumlens(recv, 0) == 0 && sumsnoc(recv, 0) && sumsnoc(recv, 1) && (len(recv) == 2 ==> arr(recv[0]) != arr(recv[1]))
+//@   at (Buffers).ReadFrom requires[C02,C17] @vector-list-is-fixed-part-then-payload len(recv) <= 2 && sumlens(recv) == int(remaining)
 //@   at (Buffers).ReadFrom requires[C02,C17] @reads-body-only-for-accepted-sizes 7 <= size && size <= msize && size <= maximumLength
 //@   at message.decode requires[C02,C18] @decode-sees-only-this-frame len(dataBuf.data) <= int(remaining)
 //@   at message.decode requires[C02,C18] @decodes-only-a-completely-read-body ncalls("(Buffers).ReadFrom") == 1 || remaining == 0
 //@   ensures[C02,C06] @message-iff-no-error (result2 == nil) == (result1 != nil)
+//@   ensures[C02,C17] @accepted-frame-consumes-exactly-its-declared-size result2 == nil ==> ghost("$consumed", int) == old(ghost("$consumed", int)) + int(size)
 //@   ensures[C02] @tiny-or-oversized-frame-ends-connection ncalls("lookup") == 0 ==> typeis(result2, ConnError) && 0 <= ghost("$consumed", int) - old(ghost("$consumed", int)) && ghost("$consumed", int) - old(ghost("$consumed", int)) <= 7 && ncalls("io.LimitReader") == 0 && ncalls("(Buffers).ReadFrom") == 0
 //@   ensures[C02] @never-drains-twice ncalls("io.LimitReader") <= 1 && ncalls("(Buffers).ReadFrom") <= 1 && ncalls("io.LimitReader") + ncalls("(Buffers).ReadFrom") <= 1
 //@   safety[C02]
